@@ -98,6 +98,9 @@ def read (cfg : FrameCfg) (cd : Codec) (r : Reader) (n : Nat) : Reader × Except
           let raw := rest.take len
           let rest' := rest.drop len
           if (h0 &&& cfg.typeMask) == cfg.typeCompress then
+            -- 3c63eeb: the decoded length the payload ANNOUNCES (snappy.DecodedLen) is tested before snappy.Decode allocates it;
+            -- an over-announcing frame is refused like any undecodable one
+            if cd.announced raw > cfg.dataMaxSize then ({ r with wire := rest' }, .error .decode) else
             match cd.dec raw with
             | none => ({ r with wire := rest' }, .error .decode)
             | some frame =>
@@ -130,8 +133,8 @@ def readMany (cfg : FrameCfg) (cd : Codec) : Reader → List Nat → Reader × B
     | (r', .error e) => (r', [], some e)
     | (r', .ok b) => let (r'', out, e) := readMany cfg cd r' ns; (r'', b ++ out, e)
 
-/-- what `Read` allocates on behalf of the frame at the head of the wire BEFORE it has checked the chunk length:
-`snappy.Decode(nil, rawData)` makes a buffer of the length the payload ANNOUNCES -/
+/-- what `Read` lets snappy allocate on behalf of the frame at the head of the wire: `snappy.Decode(nil, rawData)` makes a buffer
+of the length the payload ANNOUNCES — but only after that length has passed the `dataMaxSize` test (3c63eeb) -/
 def readAlloc (cfg : FrameCfg) (cd : Codec) (r : Reader) : Nat :=
   if !r.recvBuffer.isEmpty then 0
   else match r.wire with
@@ -139,6 +142,7 @@ def readAlloc (cfg : FrameCfg) (cd : Codec) (r : Reader) : Nat :=
       let len := be32dec b1 b2 b3 b4
       if (h0 &&& cfg.versionMask) != cfg.version00 || (h0 &&& cfg.typeMask) != cfg.typeCompress then 0
       else if len > cfg.frameCapacity - cfg.headerSize || rest.length < len then 0
+      else if cd.announced (rest.take len) > cfg.dataMaxSize then 0   -- refused before anything is allocated
       else cd.announced (rest.take len)
     | _ => 0
 
